@@ -284,3 +284,77 @@ Proof.
     rewrite (lastcover_map_none (inside n) l2 b Hne2 B) by (intros o Ho; eapply cov_false_inside; eauto).
     reflexivity.
 Qed.
+
+(* ------------------------------------------------- the whole list: initializers added in source order *)
+(* `built l src`: the list l results from adding the entries src one after the other (each time under the
+   precondition of initadd: laminar ranges, the search position p->last only skips what the loop would skip) *)
+Inductive built : list init -> list init -> Prop :=
+| built_nil : built [] []
+| built_add l src last n : built l src -> Pre l last n -> built (fst (initadd l last n)) (src ++ [n]).
+
+(* later initializers override earlier ones: the list denotes the overlay of the leaf writes in SOURCE order *)
+Theorem built_denote en l src : built l src -> denote en l = overlay en (map leaf_of src).
+Proof.
+  induction 1 as [|l src last n Hb IH HP]; [reflexivity|].
+  rewrite (initadd_denote en l last n HP), IH. unfold overlay. rewrite map_app, fold_left_app. reflexivity.
+Qed.
+
+Theorem built_sorted l src : built l src -> Inv l /\ Forall nonempty l.
+Proof.
+  induction 1 as [|l src last n Hb IH HP]; [split; constructor|].
+  destruct (initadd_sorted l last n HP) as (A & B & _). split; assumption.
+Qed.
+
+(* The laminarity hypothesis cannot be dropped: with partially overlapping ranges (sub-objects of different members
+   of a union: [0,4) [4,12) then [0,8)) the new entry replaces the entries it covers and is put BEFORE an entry it
+   only partly overlaps, which then wrongly takes precedence. *)
+Definition po_A := mkinit 0 1 (mkbf 0 4) (EConst false 1 15).
+Definition po_B := mkinit 0 2 (mkbf 4 4) (EConst false 2 255).
+Definition po_n := mkinit 0 1 (mkbf 0 0) (EConst false 1 0).
+
+Theorem initadd_partial_overlap_refuted :
+  exists en l n, Inv l /\ Forall nonempty l /\ nonempty n /\
+    denote en (fst (initadd l 0 n)) <> write en (denote en l) (leaf_of n).
+Proof.
+  exists (mkenv (fun _ => 0) (fun _ => 0)), [po_A; po_B], po_n.
+  split; [|split; [|split]].
+  - unfold Inv. constructor; [constructor; [constructor|constructor]|].
+    constructor; [|constructor]. left. vm_compute. intros HH; discriminate HH.
+  - repeat constructor.
+  - vm_compute. reflexivity.
+  - vm_compute. intros HH; discriminate HH.
+Qed.
+
+(* non-vacuity of initadd_denote / initadd_sorted: a string entry covering an element override; a third entry is
+   added behind them starting the search at p->last = 2 *)
+Definition ex_S := mkinit 0 8 nobits (EString 1 [97; 98; 99; 0]).
+Definition ex_x := mkinit 1 2 nobits (EConst false 1 120).
+Definition ex_y := mkinit 2 3 nobits (EConst false 1 121).
+
+Example initadd_nonvacuous :
+  Pre [ex_S; ex_x] 2 ex_y /\ initadd [ex_S; ex_x] 2 ex_y = ([ex_S; ex_x; ex_y], 3%nat) /\
+  Pre [ex_S; ex_x; ex_y] 0 ex_x /\ fst (initadd [ex_S; ex_x; ex_y] 0 ex_x) = [ex_S; ex_x; ex_y].
+Proof.
+  assert (L : forall a b : N, (a <=? b) = true -> a <= b) by (intros a b; apply N.leb_le).
+  assert (L2 : forall a b : N, (a <? b) = true -> a < b) by (intros a b; apply N.ltb_lt).
+  split; [|split; [reflexivity|split; [|reflexivity]]].
+  - split; [simpl; lia|]. split; [apply L2; reflexivity|]. split; [repeat constructor|].
+    split; [|split].
+    + unfold Inv. constructor; [constructor; [constructor|constructor]|]. constructor; [|constructor].
+      right. split; apply L; reflexivity.
+    + constructor; [|constructor; [|constructor]].
+      * right. right. right. split; apply L; reflexivity.
+      * left. apply L. reflexivity.
+    + constructor; [|constructor; [|constructor]].
+      * right. split; [split; apply L; reflexivity|]. intros [HH _]. revert HH. vm_compute. intros HH. apply HH. reflexivity.
+      * left. apply L. reflexivity.
+  - split; [simpl; lia|]. split; [apply L2; reflexivity|]. split; [repeat constructor|].
+    split; [|split; [|constructor]].
+    + unfold Inv. constructor; [constructor; [constructor; [constructor|constructor]|]|].
+      * constructor; [|constructor]. left. apply L. reflexivity.
+      * constructor; [|constructor; [|constructor]]; right; split; apply L; reflexivity.
+    + constructor; [|constructor; [|constructor; [|constructor]]].
+      * right. right. right. split; apply L; reflexivity.
+      * right. right. left. split; apply L; reflexivity.
+      * right. left. apply L. reflexivity.
+Qed.
